@@ -264,6 +264,34 @@ def run_history(names, engine=None):
     return dict(fails=h.fails, failed_at=failed_at, stats=h.stats)
 
 
+HISTORY_TIMEOUT_S = 60
+
+
+class _Timeout(BaseException):
+    pass
+
+
+def _on_alarm(signum, frame):
+    raise _Timeout()
+
+
+def _guarded_history(names):
+    """run_history under a watchdog: a history that does not finish is reported (undecided) instead of blocking the run"""
+    import signal
+    import traceback
+    old = signal.signal(signal.SIGALRM, _on_alarm)
+    signal.alarm(HISTORY_TIMEOUT_S)
+    try:
+        return run_history(names), None
+    except (_Timeout, MemoryError) as ex:
+        where = " <- ".join(f"{f.name}:{f.lineno}" for f in reversed(traceback.extract_tb(ex.__traceback__)[-6:]))
+        _G["engine"] = H.new_engine()
+        return None, f"history {names} did not finish within {HISTORY_TIMEOUT_S} s ({type(ex).__name__} at {where})"
+    finally:
+        signal.alarm(0)
+        signal.signal(signal.SIGALRM, old)
+
+
 def _worker(job):
     H.quiet()
     if _G["engine"] is None:
@@ -272,10 +300,13 @@ def _worker(job):
         gc.collect()
         gc.freeze()
     res = dict(evaluations=0, nontrivial=0, failures=[], samples=[], skipped_prefix_already_broken=0, get_without_sql=0, get_with_token_without_sql=0, add_conflicts=0,
-               operations_raising_documented_errors=0, histories_with_identity_tokens=0)
+               operations_raising_documented_errors=0, histories_with_identity_tokens=0, timeouts=[])
     for idxs in H.job_sequences(job.get("catalogue", len(OPS)), job):
         names = [OPS[k] for k in idxs]
-        r = run_history(names)
+        r, timeout = _guarded_history(names)
+        if timeout:
+            res["timeouts"].append(timeout)
+            continue
         res["evaluations"] += 1
         st = r["stats"]
         res["get_without_sql"] += st["get_nosql"]
@@ -317,6 +348,7 @@ def bounded(run, tier, seed):
     for r in H.run_sharded(_worker, joblist):
         agg.add(r)
     failures = agg.get("failures", [])
+    run.undecided += agg.get("timeouts", [])
     n = 0
     for d in sorted(failures, key=lambda d: (len(d["ops"]), d["ops"])):
         dj = json.dumps(d, sort_keys=True, default=repr)
